@@ -30,6 +30,14 @@ impl AEnv for MarketEnv<2, 10> {
     fn do_step(&mut self, rng: &mut Xoroshiro128StarStar) { self.step(rng) }
 }
 
+/// Twelve assets with the default ten levels: asset indices at or above the level count exist.
+impl AEnv for MarketEnv<12, 10> {
+    fn book(&self, a: usize) -> &OrderBook<10> { self.get_market().get_order_book(a) }
+    fn submit(&mut self, a: usize, side: Side, vol: u32, tr: u32, p: Option<u32>) { self.place_order(a, side, vol, tr, p).unwrap(); }
+    fn qcancel(&mut self, a: usize, id: usize) { self.cancel_order((a, id)) }
+    fn do_step(&mut self, rng: &mut Xoroshiro128StarStar) { self.step(rng) }
+}
+
 fn is_bid(s: Side) -> bool { matches!(s, Side::Bid) }
 fn is_market(side: Side, price: u32) -> bool { (is_bid(side) && price == u32::MAX) || (!is_bid(side) && price == 0) }
 
@@ -60,10 +68,37 @@ pub struct AuditOut {
     pub market: usize,
 }
 
-fn audit_loop<E: AEnv>(cfg: &AuditCfg, env: &mut E, mut update: impl FnMut(&mut E, &mut Xoroshiro128StarStar)) -> AuditOut {
+/// The seeded generator, except that ONE chosen draw of the next update can be forced to an extreme raw output (all ones:
+/// the largest uniform draw below 1; zero: the draw 0.0). "For all seeds" is "for all generator outputs", and the extremes
+/// have probability 2^-32 / 2^-64 per draw: no seed search reaches them, yet the activity corners (probability 0 never,
+/// probability >= 1 always) must hold there too. The forced draw still advances the real generator, so everything else
+/// about the run is the run of that seed.
+pub struct ForceRng {
+    pub inner: Xoroshiro128StarStar,
+    pub force: Option<(usize, u64)>,
+    pub n: usize,
+}
+impl rand::RngCore for ForceRng {
+    fn next_u32(&mut self) -> u32 {
+        let i = self.n;
+        self.n += 1;
+        let real = self.inner.next_u32();
+        match self.force { Some((k, v)) if k == i => v as u32, _ => real }
+    }
+    fn next_u64(&mut self) -> u64 {
+        let i = self.n;
+        self.n += 1;
+        let real = self.inner.next_u64();
+        match self.force { Some((k, v)) if k == i => v, _ => real }
+    }
+    fn fill_bytes(&mut self, dest: &mut [u8]) { self.n += 1; self.inner.fill_bytes(dest) }
+    fn try_fill_bytes(&mut self, dest: &mut [u8]) -> Result<(), rand::Error> { self.fill_bytes(dest); Ok(()) }
+}
+
+fn audit_loop<E: AEnv>(cfg: &AuditCfg, env: &mut E, mut update: impl FnMut(&mut E, &mut ForceRng)) -> AuditOut {
     let a = cfg.asset;
     let tick = cfg.tick;
-    let mut rng = Xoroshiro128StarStar::seed_from_u64(cfg.seed);
+    let mut rng = ForceRng { inner: Xoroshiro128StarStar::seed_from_u64(cfg.seed), force: None, n: 0 };
     let sp = &cfg.subject;
     let (tlo, thi) = sp.traders();
     let mut out = AuditOut { verdict: Ok(()), orders: 0, cancels: 0, limit: 0, market: 0 };
@@ -82,7 +117,7 @@ fn audit_loop<E: AEnv>(cfg: &AuditCfg, env: &mut E, mut update: impl FnMut(&mut 
     if !low && cfg.start_book & 2 != 0 {
         for k in 1..4u32 { env.submit(a, Side::Ask, 50, 9000, Some(base + k * tick)); }
     }
-    env.do_step(&mut rng);
+    env.do_step(&mut rng.inner);
     let n_traders = (thi - tlo) as usize;
     let mut mom_m: f64 = 0.0;
     let mut mom_last: Option<f64> = None;
@@ -115,7 +150,18 @@ fn audit_loop<E: AEnv>(cfg: &AuditCfg, env: &mut E, mut update: impl FnMut(&mut 
             }
             mom_last = Some(mid);
         }
+        // one update in three: one of its first draws is forced to an extreme raw output (decided from the configuration,
+        // not from the generator)
+        rng.n = 0;
+        rng.force = None;
+        if sp.kind != 'R' {
+            let hsh = cfg.seed.wrapping_mul(0x9E3779B97F4A7C15).wrapping_add((step as u64).wrapping_mul(0x632BE59BD9B4E019));
+            if (hsh >> 7) % 3 == 0 {
+                rng.force = Some((((hsh >> 20) % 4) as usize, if (hsh >> 30) % 2 == 0 { u64::MAX } else { 0 }));
+            }
+        }
         let r = catch_unwind(AssertUnwindSafe(|| update(env, &mut rng)));
+        rng.force = None;
         if r.is_err() {
             out.verdict = Err(format!("agent_aborted@step{}", step));
             return out;
@@ -205,7 +251,7 @@ fn audit_loop<E: AEnv>(cfg: &AuditCfg, env: &mut E, mut update: impl FnMut(&mut 
         if let Some(f) = cf { out.verdict = Err(format!("{}@step{}", f, step)); return out; }
         // snapshot for the cancel audit, then step
         let active_before: Vec<bool> = before.iter().map(|(s, _, _)| matches!(s, Status::Active)).collect();
-        let r = catch_unwind(AssertUnwindSafe(|| env.do_step(&mut rng)));
+        let r = catch_unwind(AssertUnwindSafe(|| env.do_step(&mut rng.inner)));
         if r.is_err() { out.verdict = Err(format!("step_aborted@step{}", step)); return out; }
         let orders = env.book(a).get_orders();
         let mut own_active = 0usize;
@@ -255,6 +301,10 @@ pub fn run_audit(cfg: &AuditCfg) -> AuditOut {
             let mut env: Env = Env::new(0, cfg.tick, 1000, true);
             let mut agent = cfg.subject.build();
             audit_loop(cfg, &mut env, |e, r| agent.update(e, r))
+        } else if cfg.asset >= 2 {
+            let mut env: MarketEnv<12, 10> = MarketEnv::new(0, [cfg.tick; 12], 1000, true);
+            let mut agent = cfg.subject.build_market();
+            audit_loop(cfg, &mut env, |e, r| agent.update(e, r))
         } else {
             let mut env: MarketEnv<2, 10> = MarketEnv::new(0, [cfg.tick, cfg.tick], 1000, true);
             let mut agent = cfg.subject.build_market();
@@ -269,7 +319,8 @@ pub fn run_audit(cfg: &AuditCfg) -> AuditOut {
 
 pub fn gen_audit_cfg(rng: &mut Xoroshiro128StarStar) -> AuditCfg {
     let multi = rng.gen::<f64>() < 0.4;
-    let asset = if multi { rng.gen_range(0..2) } else { 0 };
+    // one multi-asset configuration in four: the last of twelve assets (an index above the number of published levels)
+    let asset = if multi { [0usize, 1, 1, 11][rng.gen_range(0..4)] } else { 0 };
     let tick: u32 = rng.gen_range(1..11);
     let pr = |rng: &mut Xoroshiro128StarStar| ["0/1", "0/1", "1/8", "1/2", "1/1", "3/2"][rng.gen_range(0..6)].to_string();
     let kind = ['R', 'N', 'N', 'M', 'M'][rng.gen_range(0..5)];
@@ -363,13 +414,19 @@ fn mom_loop<E: AEnv>(cfg: &MomCfg, env: &mut E, a: usize, mut update: impl FnMut
 }
 
 pub fn run_mom(cfg: &MomCfg) -> MomOut {
-    let spec = AgentSpec { kind: 'M', asset: 1, f: vec!["100".into(), cfg.n.to_string(), cfg.tick.to_string(), cfg.p_cancel.clone(), "3".into(),
+    // one multi-asset momentum run in four uses the last of twelve assets
+    let wide12 = cfg.multi && cfg.seed % 4 == 0;
+    let spec = AgentSpec { kind: 'M', asset: if wide12 { 11 } else { 1 }, f: vec!["100".into(), cfg.n.to_string(), cfg.tick.to_string(), cfg.p_cancel.clone(), "3".into(),
         cfg.decay.clone(), cfg.demand.clone(), cfg.scale.clone(), cfg.ratio.clone(), "0".into(), "1".into()] };
     let r = catch_unwind(AssertUnwindSafe(|| {
         if !cfg.multi {
             let mut env: Env = Env::new(0, cfg.tick, 1000, true);
             let mut agent = spec.build();
             mom_loop(cfg, &mut env, 0, |e, r| agent.update(e, r))
+        } else if wide12 {
+            let mut env: MarketEnv<12, 10> = MarketEnv::new(0, [cfg.tick; 12], 1000, true);
+            let mut agent = spec.build_market();
+            mom_loop(cfg, &mut env, 11, |e, r| agent.update(e, r))
         } else {
             let mut env: MarketEnv<2, 10> = MarketEnv::new(0, [cfg.tick, cfg.tick], 1000, true);
             let mut agent = spec.build_market();
